@@ -29,6 +29,7 @@ package main
 
 import (
 	"bytes"
+	"compress/flate"
 	"context"
 	"crypto/sha256"
 	"encoding/binary"
@@ -546,6 +547,8 @@ func (s *sweeper) gets(st *store.ImmuStore) {
 			})
 			if ok {
 				s.obs[api+".vLen#"+k] = fmt.Sprintf("ok:%d", ref.Len())
+			}
+			if ok && api != "Get" { // (Get returns the same reference or hides it: resolved once)
 				s.call(api+".Resolve#"+k, func() (string, error) {
 					v, err := ref.Resolve()
 					return hex.EncodeToString(v), err
@@ -618,12 +621,8 @@ func (s *sweeper) sweep(dir string, persisted, indexAfterPanic bool, afterReads 
 				ent = en
 				return encEntry(en) + " " + encHdr(h), nil
 			})
-			if ok {
+			if ok { // (ReadValue of this entry would repeat ReadValue#t/i: same parser, same bytes)
 				s.obs[fmt.Sprintf("ReadTxEntry.vLen#%d/%s", t, e.key)] = fmt.Sprintf("ok:%d", ent.VLen())
-				s.call(fmt.Sprintf("ReadValue#%d/%s", t, e.key), func() (string, error) {
-					v, err := st.ReadValue(ent)
-					return hex.EncodeToString(v), err
-				})
 			}
 		}
 	}
@@ -685,6 +684,7 @@ func (s *sweeper) sweep(dir string, persisted, indexAfterPanic bool, afterReads 
 		}
 	}
 	afterReads(readable)
+	readPanicked := s.panicked
 	if s.panicked {
 		if !indexAfterPanic {
 			return readable
@@ -701,6 +701,13 @@ func (s *sweeper) sweep(dir string, persisted, indexAfterPanic bool, afterReads 
 			defer cancel()
 			return "", st.WaitForIndexingUpto(ctx, uint64(upto))
 		}) {
+		if readPanicked && upto < nTx {
+			// let the indexer reach the tx whose read panicked before going on: either the process dies now (reported by
+			// the parent) or the indexer survives that tx; never a crash at an arbitrary later moment
+			ctx, cancel := context.WithTimeout(context.Background(), 5*time.Second)
+			st.WaitForIndexingUpto(ctx, uint64(upto+1))
+			cancel()
+		}
 		s.gets(st)
 	}
 	return readable
@@ -768,52 +775,91 @@ func (p *pristine) pairs(si int) []alteration {
 	return out
 }
 
-// predictAlloc: the largest buffer a read will allocate because of the alteration (vLen of an entry, length
-// prefix of a compressed value at the entry's — possibly altered — offset). Only used to decide WHERE the
-// alteration is run (child process with the collector off), never by the oracle.
+// predictAlloc: the largest buffer a read will allocate because of the alteration: vLen of an entry and — compressed
+// value logs — every length prefix the (real) read loop will come across: a value shorter than requested is
+// "continued" at the following offset, whose bytes are then taken as a length prefix. Only used to decide WHERE
+// the alteration is run (child process with the collector off), never by the oracle.
 func (p *pristine) predictAlloc(a alteration) int64 {
-	get := func(log string, off, n int) (uint64, bool) { // big-endian integer at a logical offset, after patching
+	chunk := func(log string, ch int) ([]byte, bool) { // data part of a chunk, after patching
+		ext := "val"
+		if log == "tx" {
+			ext = "tx"
+		}
+		d, _, _, ok := p.chunkData(log, ext, ch)
+		if !ok {
+			return nil, false
+		}
+		for _, x := range a {
+			if s := p.sites[x.Site]; s.Log == log && s.Chunk == ch {
+				d = append([]byte{}, d...)
+				for _, y := range a {
+					if t := p.sites[y.Site]; t.Log == log && t.Chunk == ch {
+						d[t.In] = y.New
+					}
+				}
+				break
+			}
+		}
+		return d, true
+	}
+	txInt := func(off, n int) uint64 { // big-endian integer at a logical offset of the (plain) tx log
 		var v uint64
 		for i := 0; i < n; i++ {
-			ch, in := (off+i)/fileSize, (off+i)%fileSize
-			if log != "tx" && p.cf.Flate {
-				ch, in = off/fileSize, off%fileSize+i
+			d, ok := chunk("tx", (off+i)/fileSize)
+			if !ok {
+				return 0
 			}
-			ext := "val"
-			if log == "tx" {
-				ext = "tx"
-			}
-			d, _, _, ok := p.chunkData(log, ext, ch)
-			if !ok || in >= len(d) {
-				return 0, false
-			}
-			b := d[in]
-			for _, x := range a {
-				if s := p.sites[x.Site]; s.Log == log && s.Chunk == ch && s.In == in {
-					b = x.New
-				}
-			}
-			v = v<<8 | uint64(b)
+			v = v<<8 | uint64(d[(off+i)%fileSize])
 		}
-		return v, true
+		return v
 	}
 	var max int64
 	for _, e := range p.entries {
-		if v, ok := get("tx", e.vLen, 4); ok && int64(v) > max {
-			max = int64(v)
+		vLen := int64(txInt(e.vLen, 4))
+		if vLen > max {
+			max = vLen
 		}
-		if p.cf.Flate {
-			vo, _ := get("tx", e.vOff, 8)
-			id, off := int(vo>>56), int64(vo&(1<<55-1))
-			if id >= 1 && id <= p.cf.IO && off < 1<<30 {
-				if v, ok := get(fmt.Sprintf("val_%d", id-1), int(off), 4); ok && int64(v) > max {
-					max = int64(v)
-				}
+		if !p.cf.Flate || vLen == 0 {
+			continue
+		}
+		vo := txInt(e.vOff, 8)
+		id, off := int(vo>>56), int64(vo&(1<<55-1))
+		if id < 1 || id > p.cf.IO {
+			continue
+		}
+		log := fmt.Sprintf("val_%d", id-1)
+		for r := int64(0); r < vLen; { // multiapp.ReadAt over singleapp.ReadAt (compressed)
+			o := off + r
+			if o/fileSize > 1<<20 {
+				break
 			}
+			d, ok := chunk(log, int(o/fileSize))
+			in := int(o % fileSize)
+			if !ok || in+4 > len(d) {
+				break
+			}
+			clen := int64(binary.BigEndian.Uint32(d[in:]))
+			if clen > max {
+				max = clen
+			}
+			if int64(in)+4+clen > int64(len(d)) {
+				break
+			}
+			out, _ := io.ReadAll(flate.NewReader(bytes.NewReader(d[in+4 : in+4+int(clen)])))
+			n := int64(len(out))
+			if n > vLen-r {
+				n = vLen - r
+			}
+			if n == 0 {
+				break
+			}
+			r += n
 		}
 	}
 	return max
 }
+
+func (p *pristine) heavy(a alteration) bool { return p.predictAlloc(a) >= heavyAlloc }
 
 // worker owns a private copy of the store.
 type worker struct {
@@ -1163,10 +1209,12 @@ func (ch *childProc) stop() {
 }
 
 // runChild returns the outcome of the alteration executed in the worker's child process (a crash of the child
-// is a violation). The child is replaced after a crash and after 16 alterations (its heap only grows).
-func (w *worker) runChild(a alteration, mode string) outcome {
+// is a violation). The child is replaced after a crash and after 64 alterations (its heap only grows).
+func (w *worker) runChild(a alteration, mode string) outcome { return w.runChildOnce(a, mode, false) }
+
+func (w *worker) runChildOnce(a alteration, mode string, retried bool) outcome {
 	p := w.p
-	if w.child != nil && w.child.served >= 16 {
+	if w.child != nil && w.child.served >= 64 {
 		w.child.stop()
 		w.child = nil
 	}
@@ -1186,7 +1234,15 @@ func (w *worker) runChild(a alteration, mode string) outcome {
 	ch := w.child
 	ch.served++
 	if err := json.NewEncoder(ch.in).Encode(childReq{a, mode}); err != nil {
-		harnessBug("child request: %v (%s)", err, short(ch.errb.String(), 2000))
+		if retried {
+			harnessBug("child request: %v (%s)", err, short(ch.errb.String(), 2000))
+		}
+		// the child died after it had answered the previous request: start a new one
+		c.Add("child_died_between_requests", 1)
+		c.Sample(map[string]any{"child_died_between_requests": short(ch.errb.String(), 600)})
+		ch.stop()
+		w.child = nil
+		return w.runChildOnce(a, mode, true)
 	}
 	var last *outcome
 	for {
@@ -1337,6 +1393,12 @@ func main() {
 	if c.Thorough() {
 		cfgs, phases = allCfgs, []phase{{"single", "rebuilt", false}, {"single", "persisted", false}, {"pair", "rebuilt", true}}
 	}
+	if v := os.Getenv("C09_CFGS"); v != "" {
+		cfgs = nil
+		for _, n := range strings.Split(v, ",") {
+			cfgs = append(cfgs, cfgByName(n))
+		}
+	}
 	var leakMu sync.Mutex
 	var leaks []lib.Violation
 	ps := map[string]*pristine{}
@@ -1378,7 +1440,7 @@ func main() {
 				for _, a := range alts {
 					var out outcome
 					t0 := time.Now()
-					if p.predictAlloc(a) >= heavyAlloc {
+					if p.heavy(a) {
 						out = w.runChild(a, ph.mode)
 						c.Add("alterations_run_in_child_process", 1)
 					} else if out = w.run(a, ph.mode, false, nil); out.NeedChild {
